@@ -86,6 +86,13 @@ class ServiceRegistry:
             return []
         return [self._services[name] for name in record_list]
 
+    def _remove_from_index(self, records: Dict[str, List], key: _str, name: _str) -> None:
+        """Remove a name from an index, dropping the bucket once it is empty."""
+        record_list = records[key]
+        record_list.remove(name)
+        if not record_list:
+            del records[key]
+
     def _add(self, info: ServiceInfo) -> None:
         """Add a new service under the lock."""
         assert info.server_key is not None, "ServiceInfo must have a server"
@@ -105,8 +112,8 @@ class ServiceRegistry:
             if old_service_info is None:
                 continue
             assert old_service_info.server_key is not None
-            self.types[old_service_info.type.lower()].remove(info.key)
-            self.servers[old_service_info.server_key].remove(info.key)
+            self._remove_from_index(self.types, old_service_info.type.lower(), info.key)
+            self._remove_from_index(self.servers, old_service_info.server_key, info.key)
             del self._services[info.key]
 
         self.has_entries = bool(self._services)
